@@ -12,6 +12,7 @@ Everything observable is recorded into one trace in program order; times are int
 import asyncio
 import math
 import inspect
+import functools
 import json
 import sys
 import threading
@@ -109,12 +110,34 @@ class VLoop(asyncio.SelectorEventLoop):
 STATUS_OF = {"AUTH": 401, "PERMISSION": 403, "PERMANENT": 404, "CONCURRENCY": 409, "RATE_LIMIT": 429,
              "SERVER_ERROR": 503, "TRANSIENT": 408}
 
-CANCEL = {
+class JobCancelled(asyncio.CancelledError, RuntimeError):
+    """a cancellation that is also an Exception (libraries bridge asyncio's and concurrent.futures' CancelledError this way): still a
+    CancelledError, so it propagates"""
+
+
+class _Cancel(dict):
+    bridge = False
+
+    def __getitem__(self, k):
+        if k == "cancelled" and _Cancel.bridge:
+            return JobCancelled
+        return dict.__getitem__(self, k)
+
+
+CANCEL = _Cancel({
     "cancelled": asyncio.CancelledError,
     "keyboard": KeyboardInterrupt,
     "sysexit": SystemExit,
     "genexit": GeneratorExit,
-}
+})
+
+
+# before_sleep is a best-effort hook (its ordinary exceptions are swallowed by design), so only the plain cancellation types there
+PLAIN_CANCEL = dict(CANCEL)
+
+
+def cancel_kind(e):
+    return "cancelled" if type(e) is JobCancelled else [k for k, v in dict.items(CANCEL) if type(e) is v][0]
 
 
 def nth(lst, i, default):
@@ -126,6 +149,7 @@ class World:
 
     def __init__(self, call, shared):
         self.call = call
+        _Cancel.bridge = bool((call.get("variant") or {}).get("cancel_bridge"))
         self.cfg = call["cfg"]
         self.env = call["env"]
         self.variant = call.get("variant") or {}
@@ -186,7 +210,10 @@ class World:
         if kind == "V":
             return self.remember(Value(att), "V", att)
         if kind == "R":
-            err = (ScriptedTimeout if self.cur_op_flag == "te" else ScriptedError)("scripted failure %d" % att)
+            if self.cur_op_flag == "te" and (att + self.variant.get("bare", 0)) % 2 == 0:
+                err = ScriptedTimeout()      # an argument-less TimeoutError of the operation's own (what a nested asyncio.timeout raises)
+            else:
+                err = (ScriptedTimeout if self.cur_op_flag == "te" else ScriptedError)("scripted failure %d" % att)
             st = STATUS_OF.get(klass) if self.no_retry else None
             if st is not None:
                 err.status = st     # default_classifier (used when no retry is configured) answers the scripted class
@@ -317,7 +344,7 @@ class World:
     def before_sleep_sync(self, who, ctx, sleep_s):
         idx, canc = self.bs_common(who, ctx, sleep_s)
         if canc:
-            raise self.remember(CANCEL[canc](), "CS", self.invocations)
+            raise self.remember(PLAIN_CANCEL[canc](), "CS", self.invocations)
         if nth(self.env["bs_raises"], idx, False):
             raise RuntimeError("before_sleep hook failure")
 
@@ -325,10 +352,10 @@ class World:
         idx, canc = self.bs_common(who, ctx, sleep_s)
         if canc:
             if self.variant.get("throw"):
-                self.pending_throw = self.remember(CANCEL[canc](), "CS", self.invocations)
+                self.pending_throw = self.remember(PLAIN_CANCEL[canc](), "CS", self.invocations)
                 await Suspend()
                 raise AssertionError("resumed after throw")
-            raise self.remember(CANCEL[canc](), "CS", self.invocations)
+            raise self.remember(PLAIN_CANCEL[canc](), "CS", self.invocations)
         if self.variant.get("suspend_bs"):
             await Suspend()
         if nth(self.env["bs_raises"], idx, False):
@@ -421,14 +448,40 @@ class Shared:
     def retry_kwargs(self, pcfg, is_async):
         sh = self
 
+        shape = pcfg.get("strat_shape", 0)
+
         def mk_strategy(sid, legacy):
+            # the same strategy behind different signatures the library must recognise (strategies._normalize_strategy): extra
+            # defaulted positional parameters, keyword-only knobs, a partial, a callable object
             if legacy:
                 def f3(attempt, klass, prev_sleep_s):
                     return sh.w().strategy_legacy(sid, attempt, klass, prev_sleep_s)
-                return f3
+
+                def f3d(attempt, klass, prev_sleep_s, scale=1.0, *, knob=None):
+                    return sh.w().strategy_legacy(sid, attempt, klass, prev_sleep_s)
+                return [f3, f3d][shape % 2]
 
             def f1(ctx):
                 return sh.w().strategy_ctx(sid, ctx)
+            if not sh.seq.get("spy_strategy") and shape % 6:
+                import functools
+
+                def f1d(ctx, base_s=0.5, max_s=30.0):
+                    return sh.w().strategy_ctx(sid, ctx)
+
+                def f1e(ctx, jitter=0.1):
+                    return sh.w().strategy_ctx(sid, ctx)
+
+                def f1k(ctx, *, knob=1):
+                    return sh.w().strategy_ctx(sid, ctx)
+
+                def f2(tag, ctx):
+                    return sh.w().strategy_ctx(sid, ctx)
+
+                class Obj:
+                    def __call__(self, ctx):
+                        return sh.w().strategy_ctx(sid, ctx)
+                return [f1, f1d, f1e, f1k, functools.partial(f2, "t"), Obj()][shape % 6]
             if sh.seq.get("spy_strategy"):
                 # context-style strategies may be stateful: the library reports outcomes back to them (record_failure when the
                 # strategy is selected for a failure, record_success after a success); made visible for the pairwise part of C12
@@ -481,6 +534,8 @@ class Shared:
                 # async policies accept sync or awaitable hooks; the variant picks which
                 if sh.w().variant.get("sync_hooks"):
                     return sbs(ctx, s)
+                if sh.w().variant.get("awaitable_obj"):
+                    return Awaitable(abs_(ctx, s))
                 return abs_(ctx, s)
             return pick
         return lambda ctx, s: sh.w().before_sleep_sync(who, ctx, s)
@@ -491,6 +546,9 @@ class Shared:
             def pick(s):
                 if sh.w().variant.get("sync_hooks"):
                     return sh.w().sleeper_sync(who, s)
+                if sh.w().variant.get("awaitable_obj"):
+                    # an awaitable that is not a coroutine (what a Future, a Task or loop.run_in_executor hands back)
+                    return Awaitable(sh.w().sleeper_async(who, s))
                 return sh.w().sleeper_async(who, s)
             return pick
         return lambda s: sh.w().sleeper_sync(who, s)
@@ -545,6 +603,16 @@ class Shared:
         return obj
 
 
+class Awaitable:
+    """wraps a coroutine in a plain awaitable object"""
+
+    def __init__(self, coro):
+        self.coro = coro
+
+    def __await__(self):
+        return self.coro.__await__()
+
+
 class SpyBudget(Budget):
     def __init__(self, shared, **kw):
         super().__init__(**kw)
@@ -591,13 +659,31 @@ class SpyBreaker(CircuitBreaker):
         return r
 
 
+def _fwd4(f, a, b, c, d):
+    return f(a, b, c, d)
+
+
+def _fwd2(f, a, b):
+    return f(a, b)
+
+
+class CallableObj:
+    def __init__(self, f):
+        self.f = f
+
+    def __call__(self, *a):
+        return self.f(*a)
+
+
 def call_kwargs(w, shared, mode, entry):
     cfg = w.cfg
     kw = {}
+    # hooks are any callables: bound methods, partials, instances with __call__ (no __name__ / __qualname__)
+    shape = w.variant.get("hook_shape", 0)
     if cfg["has_metric"]:
-        kw["on_metric"] = w.on_metric
+        kw["on_metric"] = [w.on_metric, functools.partial(_fwd4, w.on_metric), CallableObj(w.on_metric)][shape % 3]
     if cfg["has_log"]:
-        kw["on_log"] = w.on_log
+        kw["on_log"] = [w.on_log, CallableObj(w.on_log), functools.partial(_fwd2, w.on_log)][shape % 3]
     if cfg["has_opname"]:
         kw["operation"] = OPNAME
     if cfg["has_abort"]:
@@ -653,9 +739,9 @@ def enc_exception(w, e):
         if tag in ("O", "TO"):
             return ["raise_op", att]
         if tag == "C":
-            return ["cancel", [k for k, v in CANCEL.items() if type(e) is v][0], att]
+            return ["cancel", cancel_kind(e), att]
         if tag == "CS":
-            return ["cancel_sleep", [k for k, v in CANCEL.items() if type(e) is v][0], att]
+            return ["cancel_sleep", cancel_kind(e), att]
     if isinstance(e, asyncio.CancelledError) and w.loop_cancel is not None:
         tag, att = w.loop_cancel      # the CancelledError asyncio made for the cancel() issued at a scripted await
         return ["cancel" if tag == "C" else "cancel_sleep", "cancelled", att]
